@@ -612,7 +612,7 @@ def run(ctx):
         if t.proto not in ("tcp", "tls"):
             continue
         f = t.slots["receive"]
-        flushers = {g for g in P.fns_in(f.file.split("/")[-1]) if g.file == f.file and g.static and any(True for _ in g.calls("xcm_tp_socket_send"))}
+        flushers = c03.flush_helpers(P, f)
         if not flushers:
             raise Broken("C01.R13: the flush helper of %s was not found" % f.name)
         r13.instance(f.qname)
